@@ -48,7 +48,7 @@ NFAM = {'quick': 8000, 'thorough': 150000}
 NROUTE = {'quick': 1000, 'thorough': 16000}
 NHIST = {'quick': 300, 'thorough': 5000}
 NCONS = {'quick': 200, 'thorough': 2500}
-NXPROC = {'quick': 1200, 'thorough': 5000}          # recipes per cross-process unit
+NXPROC = {'quick': 2000, 'thorough': 5000}          # recipes per cross-process unit
 XCHUNKS = {'quick': 1, 'thorough': 4}
 HASHSEEDS = ['0', '1', '2', '3', '4', '5', '6', '7', 'random']
 CHUNK = {'corpus': 150, 'routes': 50, 'hist': 30, 'cons': 20}
@@ -706,9 +706,9 @@ def xproc_corpus(st, start, stop):
     out = []
     if start == 0:
         base = G.base_corpus()
-        out += base[::3]
+        out += base[::8]
         from vlib import c17_nutils
-        out += [['nu', n] for n in c17_nutils.names()[::6]]
+        out += [['nu', n] for n in c17_nutils.names()[::12]]
     i = start * 7
     while len(out) < stop - start:
         name, fam = G.gen_family(rng_for(st.seed, 'c17x', i), st.pool)
@@ -744,12 +744,13 @@ def run_child(recipes, pickles, hashseed, order, timeout=600):
 
 def run_xproc(st, res, unit, ctx):
     K, G = st.K, st.G
+    from nutils import types as nt
     if ctx.expired():
         res.count('skipped_deadline/xproc')
         return
     hashseed = unit['hashseed']
     recipes = xproc_corpus(st, unit['start'], unit['stop'])
-    tokens, pickles = [], []
+    tokens, canons, pickles, owned = [], [], [], []
     for r in recipes:
         try:
             with warnings.catch_warnings():
@@ -757,10 +758,17 @@ def run_xproc(st, res, unit, ctx):
                 v = G.build(r)
         except Exception as e:
             tokens.append('U:' + type(e).__name__)
+            canons.append(None)
             pickles.append(None)
+            owned.append(False)
             continue
         t = token(v, res)
         tokens.append(t)
+        try:
+            canons.append(K.canon(v).hex())
+        except Exception:
+            canons.append(None)
+        owned.append(isinstance(v, (nt.Immutable, nt.DataClass, nt.frozendict, nt.frozenmultiset)))
         p = None
         if t[1] != ':':
             try:
@@ -769,6 +777,7 @@ def run_xproc(st, res, unit, ctx):
                 p = None
         pickles.append(p)
         del v
+    st.K.forget_hashable_functions()
     out, err = run_child(recipes, pickles, hashseed, 'reversed', timeout=max(60, ctx.time_left() + 30))
     if out is None:
         res.count('xproc_child_failed')
@@ -779,35 +788,64 @@ def run_xproc(st, res, unit, ctx):
     res.count('xproc_units')
     suspects = []
     for i, r in enumerate(recipes):
-        tb = out['built'][i]
+        tb, cb = out['built'][i], out['built_canon'][i]
         if tokens[i][1] == ':' or tb[1] == ':':
             res.count('xproc_not_hashed_both')
             if tokens[i][:1] != tb[:1]:
                 suspects.append((i, 'built', tb))
             continue
-        res.count('routes/process')
-        res.count('xproc_compared/' + hashseed)
-        if tb != tokens[i]:
-            suspects.append((i, 'built', tb))
-        tu = out['unpickled'][i]
-        if tu is not None:
+        if canons[i] is None or cb is None:
+            res.count('xproc_unclassified')
+        elif canons[i] != cb:
+            res.count('xproc_recipe_built_differently')      # the recipe itself is not deterministic across processes: no verdict
+            res.note('recipe builds another value in the child: ' + json.dumps(r)[:300])
+        else:
+            res.count('routes/process')
+            res.count('xproc_compared/' + hashseed)
+            if tb != tokens[i]:
+                suspects.append((i, 'built', tb))
+        tu, cu = out['unpickled'][i], out['unpickled_canon'][i]
+        if tu is None:
+            continue
+        if tu[1] == ':':
+            res.count('xproc_unpickle_failed')
+            if owned[i]:
+                suspects.append((i, 'unpickled', tu))
+        elif canons[i] is None or cu is None:
+            res.count('xproc_unpickled_unclassified')
+        elif cu != canons[i]:
+            # the pickle transport itself produced another value (numpy returns foreign-endian arrays in native byte order)
+            res.count('xproc_pickle_changed_structure')
+            if owned[i]:
+                suspects.append((i, 'unpickled-structure', tu))
+        else:
             res.count('routes/process+pickle')
             if tu != tokens[i]:
                 suspects.append((i, 'unpickled', tu))
     for i, how, tchild in suspects[:5]:
         # confirm in isolation: a fresh process that builds only this recipe
-        iso, err = run_child([recipes[i]], [pickles[i]], hashseed, 'forward', timeout=120)
+        iso, err = run_child([recipes[i]], [pickles[i]], hashseed, 'forward', timeout=300)
         case = dict(kind='xproc', recipe=recipes[i], hashseed=hashseed, how=how)
         if iso is None:
             res.note('isolated confirm run failed: ' + err)
+            res.count('xproc_confirm_failed')
             continue
-        tiso = iso['built'][0] if how == 'built' else iso['unpickled'][0]
-        if tiso != tokens[i]:
+        if how == 'built':
+            tiso, same_value = iso['built'][0], iso['built_canon'][0] == canons[i]
+        else:
+            tiso, same_value = iso['unpickled'][0], iso['unpickled_canon'][0] == canons[i]
+        if how == 'unpickled-structure':
+            if not same_value:
+                res.violation('stability: a nutils value arrives as another value after pickling to another process', case, json.dumps(recipes[i])[:400])
+            continue
+        if tiso != tokens[i] and (same_value or tiso[1] == ':'):
             res.violation('stability: another process / PYTHONHASHSEED=%s gives another hash' % hashseed, case,
                           '%s: this process %s, child (%s) %s, isolated child %s' % (json.dumps(recipes[i])[:400], tokens[i], how, tchild, tiso))
-        else:
+        elif tiso == tokens[i]:
             res.violation('stability: hash depends on construction history (differs in a process that built the corpus in another order)', case,
                           '%s: this process %s, child (%s, reversed order) %s, isolated child %s' % (json.dumps(recipes[i])[:400], tokens[i], how, tchild, tiso))
+        else:
+            res.count('xproc_unclassified')
     if len(suspects) > 5:
         res.count('xproc_more_suspects', len(suspects) - 5)
 
@@ -1005,8 +1043,8 @@ def replay(case):
         run_conflation(st, res, case['a'], case['b'])
     elif k == 'xproc':
         o = observe(case['recipe'], res, K, G)
-        out, err = run_child([case['recipe']], [None], case['hashseed'], 'forward', timeout=120)
-        if out is not None and o.token is not None and out['built'][0] != o.token:
+        out, err = run_child([case['recipe']], [None], case['hashseed'], 'forward', timeout=300)
+        if out is not None and o.status == 'ok' and out['built_canon'][0] == o.canon.hex() and out['built'][0] != o.token:
             res.violation('stability: another process / PYTHONHASHSEED gives another hash', case, '%s vs %s' % (o.token, out['built'][0]))
     elif k == 'consumer-const':
         run_const_binding(st, res, case['arrays'], case)
@@ -1086,7 +1124,8 @@ def finalize(m, tier, seed):
                pickle_changed_structure=c.get('pickle_changed_structure', 0),
                pickle_changed_structure_types=sorted(m.sets.get('pickle_changed_structure_types', ())),
                xproc_units=c.get('xproc_units', 0), xproc_hashseeds=sorted(m.sets.get('xproc_hashseeds', ())), xproc_distinct_str_hashes=len(m.sets.get('xproc_str_hashes', ())),
-               xproc_compared=sub('xproc_compared/'), xproc_child_failed=c.get('xproc_child_failed', 0),
+               xproc_compared=sub('xproc_compared/'), xproc_child_failed=c.get('xproc_child_failed', 0), xproc_pickle_changed_structure=c.get('xproc_pickle_changed_structure', 0),
+               xproc_unclassified=c.get('xproc_unclassified', 0) + c.get('xproc_unpickled_unclassified', 0), xproc_recipe_built_differently=c.get('xproc_recipe_built_differently', 0),
                histories=c.get('histories', 0), history_ops=sub('history_ops/'), recreated_after_free=c.get('recreated_after_free', 0), identity_checks=c.get('identity_checks', 0),
                construction_checks=c.get('construction_checks', 0), construction_conflated=sub('construction_conflated/'),
                conflation_cases=c.get('conflation_cases', 0), conflation_observed=c.get('conflation_observed', 0),
